@@ -8,6 +8,8 @@
 (*           of sheets with special characters in their names) and the      *)
 (*           functions of one argument                                      *)
 (*   "sim" : everything, long formulas, sampled with -simulate              *)
+(*   "nest", "code" : two or three operands, no operator but negation, the  *)
+(*           functions of references: all nests up to MaxLen tokens         *)
 (*   "ref" : few operands, every function: long formulas with references    *)
 (*           and values nested in each other, sampled with -simulate        *)
 EXTENDS Formula
@@ -112,6 +114,14 @@ ExtCalls == {"ROW(", "COLUMN(", "LEN("}
 
 PrecOperands == {"2", "3", "1E2"}
 LitBinary == {"&", "=", "+", "^"}
+
+\* values nested in the arguments of references, references produced by calls:
+\* every nest of ROW, OFFSET and negation over a cell and a number
+NestOperands == {"A1", "1"}
+NestCalls == {"ROW(", "OFFSET("}
+\* a text that looks like generated code, counted where a reference is built
+CodeOperands == {"A1", "1", "T17"}
+CodeCalls == {"ROW(", "OFFSET(", "LEN("}
 
 \* references and values nested in each other: cells of two sheets, the small
 \* numbers that keep OFFSET near them, texts that differ only by what a
